@@ -7,11 +7,12 @@
   return the values of the total functions `k.E`/`k.D` of the Spec cipher `k`, that these map byte blocks to byte blocks
   and are mutually inverse.
     Part 1 (abstract cipher): every theorem holds for every `c`, `k` with `Implements c k`.
-    Part 2 (the library): `aes_implements`, `des_implements`, `tdea_implements`, `serpent_implements` PROVE `Implements` for
-  `AES(K)`, `DES(K)`, `TDEA(K1,K2,K3)`, `Serpent(K)` against FIPS 197 / FIPS 46-3 / SP 800-67 / the Serpent submission, every
-  accepted key, by composing the C03 (permutation) and C02 (refinement) theorems of each cipher; `lib_ecb … lib_cts_dec`
-  restate the property for `LibCipher c k` with no hypothesis on the cipher left.  Threefish is not modelled yet (hook:
-  one more constructor of `LibCipher`, Proofs/Lemmas/ModeInst.lean); until then it is covered by Part 1 only.
+    Part 2 (the library): `aes_implements`, `des_implements`, `tdea_implements`, `serpent_implements`, `threefish_implements`
+  PROVE `Implements` for `AES(K)`, `DES(K)`, `TDEA(K1,K2,K3)`, `Serpent(K)`, `Threefish(K,T)` against FIPS 197 / FIPS 46-3 /
+  SP 800-67 / the Serpent submission / Skein 1.3 section 3.3, every accepted key (and tweak), by composing the C03
+  (permutation) and C02 (refinement) theorems of each cipher; `lib_ecb … lib_cts_dec` restate the property for
+  `LibCipher c k` with no hypothesis on the cipher left (block lengths 8, 16 and — Threefish — 32, 64, 128 bytes; the default
+  counter then has halves of 4, 8, 16, 32, 64 bytes).
     Part 3: Spec.ModePad = Spec.Padding (property C09) on byte strings.  Proofs/C05/KatF.lean: SP 800-38A appendix F vectors
   through Spec.Mode over Spec.Aes, in the kernel.
   `Bytes M`: all elements < 256 (M is a Python `bytes`).  `PadDom s l M`: the admissible (padding, message) pairs:
@@ -74,7 +75,7 @@ theorem cts_cbc_dec_spec (h : Implements c k) (iv : List Nat) (hiv : iv.length =
 
 /-- at the level of the specification alone: ECB-CTS decryption and CBC-CS2 decryption (IV in front) undo the
     corresponding encryptions, for every cipher function pair (E, D) = `k` that a model cipher implements — in particular
-    FIPS 197, FIPS 46-3, SP 800-67 and Serpent with every key (`lib_implements`) -/
+    FIPS 197, FIPS 46-3, SP 800-67, Serpent and Threefish with every key (`lib_implements`) -/
 theorem cts_spec_inverse (h : Implements c k) :
     (∀ M, Bytes M → c.len ≤ M.length → Spec.Mode.ecbCtsInv k (Spec.Mode.ecbCts k M) = M) ∧
     (∀ iv M, IsBlock c.len iv → Bytes M → c.len ≤ M.length → Spec.Mode.cbcCtsInv k (Spec.Mode.cbcCts k iv M) = M) :=
@@ -126,7 +127,7 @@ theorem cts_cbc_dec_enc (h : Implements c k) (iv : List Nat) (hiv : IsBlock c.le
 
 /-- the same, from the permutation hypotheses stated on the model cipher alone: on byte blocks `enc`/`dec` succeed, return
     byte blocks and invert each other (`dec (enc b) = b`, `enc (dec b) = b`).  This is the form in which C03 delivers
-    its results; for AES, DES, TDEA and Serpent the instantiation is carried out below (`lib_*`). -/
+    its results; for AES, DES, TDEA, Serpent and Threefish the instantiation is carried out below (`lib_*`). -/
 theorem dec_enc_of_permutation (c : BlockCipher) (hpos : 0 < c.len)
     (henc : ∀ b, IsBlock c.len b → ∃ y, c.enc b = .ok y ∧ IsBlock c.len y ∧ c.dec y = .ok b)
     (hdec : ∀ y, IsBlock c.len y → ∃ b, c.dec y = .ok b ∧ IsBlock c.len b ∧ c.enc b = .ok y) :
@@ -217,12 +218,12 @@ theorem ctr_rejects_counter (iv M : List Nat) (hiv : iv.length ≠ c.len) : ∃ 
 
 /-! ### the block ciphers of the library
 
-  `Model.Mode.Ciphers.aes K`, `.des K`, `.tdea K1 K2 K3`, `.serpent K` are the objects `AES(K)`, `DES(K)`, `TDEA(K1,K2,K3)`,
-  `Serpent(K)` as the modes see them (Model/ModeCiphers.lean); `Spec.ModeCiphers.fips197 K`, `.fips46 K`, `.sp80067 ko`,
-  `.serpent K` are CIPH_K / CIPH⁻¹_K of FIPS 197, FIPS 46-3, SP 800-67 (key bundle `ko`) and the Serpent submission.
+  `Model.Mode.Ciphers.aes K`, `.des K`, `.tdea K1 K2 K3`, `.serpent K`, `.threefish K T` are the objects `AES(K)`, `DES(K)`,
+  `TDEA(K1,K2,K3)`, `Serpent(K)`, `Threefish(K,T)` as the modes see them (Model/ModeCiphers.lean); `Spec.ModeCiphers.fips197 K`,
+  `.fips46 K`, `.sp80067 ko`, `.serpent K`, `.threefish K T` are CIPH_K / CIPH⁻¹_K of FIPS 197, FIPS 46-3, SP 800-67 (key bundle
+  `ko`), the Serpent submission and Threefish-256/512/1024 of Skein 1.3 (key K, tweak T).
   Each `…_implements` composes the cipher's C03 theorems (enc/dec are mutually inverse permutations of the byte blocks)
-  with its C02 theorems (enc/dec compute the standard's functions); no hypothesis about the cipher is left.
-  Threefish is not modelled yet (HOOK: `LibCipher` in Proofs/Lemmas/ModeInst.lean gets one more constructor). -/
+  with its C02 theorems (enc/dec compute the standard's functions); no hypothesis about the cipher is left. -/
 
 /-- AES-128/192/256: every key of 16, 24 or 32 bytes -/
 theorem aes_implements (K : List Nat) (hl : K.length = 16 ∨ K.length = 24 ∨ K.length = 32) (hb : Bytes K) :
@@ -256,10 +257,34 @@ theorem serpent_implements (K : List Nat) (hl : K.length ≤ 32) (hb : Bytes K) 
     Implements (Ciphers.serpent K) (Spec.ModeCiphers.serpent K) ∧ Ciphers.serpent? K = .ok (Ciphers.serpent K) :=
   ⟨Proofs.Lemmas.ModeInst.serpent_implements K ⟨hl, hb⟩, serpent_ctor K ⟨hl, hb⟩⟩
 
-/-! #### the property for the library: `LibCipher c k` — c is `AES(K)` / `DES(K)` / `TDEA(K1,K2,K3)` / `Serpent(K)` with an
-    accepted key, k the standard's cipher with that key.  Every block length is 8 or 16 bytes, so every padding scheme is
-    admissible for every message (`LibPadDom`: nopadding needs a non-empty block multiple) and the default counter for
-    every cipher (`LibCtrDom`: None or any one-block string). -/
+/-- Threefish-256/512/1024: every key of 32, 64 or 128 bytes with every 16-byte tweak; the block is as long as the key; the
+    object with its extended key / tweak words computed once (and `blocksize` read from `K.size`) is the same cipher -/
+theorem threefish_implements (K T : List Nat) (hl : K.length = 32 ∨ K.length = 64 ∨ K.length = 128) (hb : Bytes K)
+    (htl : T.length = 16) (htb : Bytes T) :
+    Implements (Ciphers.threefish K T) (Spec.ModeCiphers.threefish K T) ∧ (Ciphers.threefish K T).len = K.length ∧
+    Ciphers.threefish? K T = .ok (Ciphers.threefish K T) :=
+  ⟨Proofs.Lemmas.ModeInst.threefish_implements K T ⟨hl, hb, htl, htb⟩, rfl, threefish_ctor K T ⟨hl, hb, htl, htb⟩⟩
+
+/-- the block lengths of the library: 8 (DES, TDEA), 16 (AES, Serpent), 32 / 64 / 128 bytes (Threefish-256/512/1024) — all
+    even and below 256, which is what `lib_ecb … lib_ctr` need of them; each one occurs -/
+theorem lib_block_lengths :
+    (∀ {c k}, LibCipher c k → c.len = 8 ∨ c.len = 16 ∨ c.len = 32 ∨ c.len = 64 ∨ c.len = 128) ∧
+    (∀ n, n = 8 ∨ n = 16 ∨ n = 32 ∨ n = 64 ∨ n = 128 → ∃ c k, LibCipher c k ∧ c.len = n) := by
+  refine ⟨fun h => lib_len h, ?_⟩
+  have hz : ∀ n, Bytes (List.replicate n 0) := fun n => Bytes.replicate (by decide)
+  intro n hn
+  rcases hn with h | h | h | h | h <;> subst h
+  · exact ⟨_, _, .des (List.replicate 8 0) ⟨by simp, hz _⟩, rfl⟩
+  · exact ⟨_, _, .aes (List.replicate 16 0) ⟨by simp, hz _⟩, rfl⟩
+  · exact ⟨_, _, .threefish (List.replicate 32 0) (List.replicate 16 0) ⟨by simp, hz _, by simp, hz _⟩, by simp [Ciphers.threefish]⟩
+  · exact ⟨_, _, .threefish (List.replicate 64 0) (List.replicate 16 0) ⟨by simp, hz _, by simp, hz _⟩, by simp [Ciphers.threefish]⟩
+  · exact ⟨_, _, .threefish (List.replicate 128 0) (List.replicate 16 0) ⟨by simp, hz _, by simp, hz _⟩, by simp [Ciphers.threefish]⟩
+
+/-! #### the property for the library: `LibCipher c k` — c is `AES(K)` / `DES(K)` / `TDEA(K1,K2,K3)` / `Serpent(K)` /
+    `Threefish(K,T)` with an accepted key (and tweak), k the standard's cipher with that key.  Every block length is 8, 16,
+    32, 64 or 128 bytes, so every padding scheme is admissible for every message (`LibPadDom`: nopadding needs a non-empty
+    block multiple; a PKCS#7 / X9.23 pad byte holds up to 128) and the default counter for every cipher (`LibCtrDom`: None or
+    any one-block string; its nonce and running halves have 4, 8, 16, 32 or 64 bytes). -/
 
 /-- ECB: the ciphertext is SP 800-38A ECB over the standard's cipher of the padded message, has the padded length, and an
     equally configured object (in any padding state) decrypts it to the message -/
@@ -359,6 +384,31 @@ example (K M : List Nat) (hl : K.length ≤ 32) (hK : Bytes K) (hM : Bytes M) (h
   obtain ⟨h1, h2, h3⟩ := lib_cts_ecb (.serpent K ⟨hl, hK⟩) M hM hlen
   exact ⟨_, h1, h2, rfl, h3⟩
 
+/-- `CTR(Threefish(K,T))` with the default counter (None, or any 128-byte initial counter block), Threefish-1024, ANY
+    message: SP 800-38A CTR over Threefish-1024 with T_j = 64-byte nonce ‖ BE((count0 + j) mod 2^512); same length; `dec` inverts -/
+example (K T M : List Nat) (iv : Option (List Nat)) (hl : K.length = 128) (hK : Bytes K) (hT : IsBlock 16 T)
+    (hiv : ∀ v, iv = some v → IsBlock 128 v) :
+    CTR.enc (Ciphers.threefish K T) iv M
+      = .ok (Spec.Mode.ctr (Spec.ModeCiphers.threefish K T) (iv.getD (List.replicate 128 0)) M) ∧
+    (Spec.Mode.ctr (Spec.ModeCiphers.threefish K T) (iv.getD (List.replicate 128 0)) M).length = M.length ∧
+    (CTR.enc (Ciphers.threefish K T) iv M).bind (CTR.dec (Ciphers.threefish K T) iv) = .ok M := by
+  have h := lib_ctr (.threefish K T ⟨Or.inr (Or.inr hl), hK, hT.1, hT.2⟩) iv
+    (fun v hv => by show IsBlock K.length v; rw [hl]; exact hiv v hv) M
+  have e : (Ciphers.threefish K T).len = 128 := hl
+  rw [e] at h
+  exact h
+
+/-- `CBC(Threefish(K,T),iv)` with PKCS#7, Threefish-512: a pad of up to 64 bytes; IV ‖ CBC chain; `dec` returns the message -/
+example (K T iv M : List Nat) (hl : K.length = 64) (hK : Bytes K) (hT : IsBlock 16 T) (hiv : IsBlock 64 iv) (hM : Bytes M) :
+    CBC.enc (Ciphers.threefish K T) iv .pkcs7 M = .ok (Spec.Mode.cbc (Spec.ModeCiphers.threefish K T) iv .pkcs7 M) ∧
+    (Spec.Mode.cbc (Spec.ModeCiphers.threefish K T) iv .pkcs7 M).length = (M.length / 64 + 1) * 64 + 64 ∧
+    CBC.dec (Ciphers.threefish K T) iv .pkcs7 (Spec.Mode.cbc (Spec.ModeCiphers.threefish K T) iv .pkcs7 M) = .ok M := by
+  obtain ⟨h1, h2, _, h4⟩ := lib_cbc (.threefish K T ⟨Or.inr (Or.inl hl), hK, hT.1, hT.2⟩) iv
+    (by show IsBlock K.length iv; rw [hl]; exact hiv) .pkcs7 M hM (fun h => by cases h) {}
+  have e : (Ciphers.threefish K T).len = 64 := hl
+  rw [e] at h4
+  exact ⟨h1, by simpa using h4, h2⟩
+
 /-! ### the two padding specifications agree (Spec.ModePad of this property, Spec.Padding of the padding property C09) -/
 
 /-- for every byte string the padded string Spec.ModePad defines (PKCS#7, X9.23, bit padding, none; block of l bytes) is
@@ -377,7 +427,9 @@ theorem modepad_unpad_eq_padding (l : Nat) (X : List Nat) :
 /-! ### non-vacuity: the hypotheses are inhabited by a non-trivial instance -/
 
 /-- library instances: AES-192 in CBC with X9.23, TDEA called with one 24-byte string in CTR, Serpent with a 5-byte key in
-    ECB-CTS, DES -/
+    ECB-CTS, DES, Threefish-256 -/
+example : LibCipher (Ciphers.threefish (List.range 32) (List.range 16)) (Spec.ModeCiphers.threefish (List.range 32) (List.range 16)) :=
+  .threefish _ _ ⟨by decide, by unfold Bytes; decide, by decide, by unfold Bytes; decide⟩
 example : LibCipher (Ciphers.aes (List.range 24)) (Spec.ModeCiphers.fips197 (List.range 24)) :=
   .aes _ ⟨by decide, by unfold Bytes; decide⟩
 example : LibCipher (Ciphers.tdea (List.range 24) none none)
@@ -388,11 +440,14 @@ example : LibCipher (Ciphers.serpent [1, 2, 3, 4, 255]) (Spec.ModeCiphers.serpen
 example : LibCipher (Ciphers.des [1, 1, 1, 1, 1, 1, 1, 1]) (Spec.ModeCiphers.fips46 [1, 1, 1, 1, 1, 1, 1, 1]) :=
   .des _ ⟨by decide, by unfold Bytes; decide⟩
 example : LibPadDom 16 .x923 [1, 2, 3] ∧ LibPadDom 16 .none (List.replicate 32 7) ∧ LibCtrDom 16 none ∧
-    LibCtrDom 8 (some [0, 0, 0, 1, 255, 255, 255, 255]) := by
-  refine ⟨?_, ?_, ?_, ?_⟩
+    LibCtrDom 8 (some [0, 0, 0, 1, 255, 255, 255, 255]) ∧ LibPadDom 128 .pkcs7 (List.replicate 200 7) ∧
+    LibCtrDom 32 (some (List.replicate 16 9 ++ List.replicate 16 255)) := by
+  refine ⟨?_, ?_, ?_, ?_, ?_, ?_⟩
   · intro h; cases h
   · intro _; exact ⟨by decide, by decide⟩
   · intro v h; cases h
+  · intro v h; cases h; exact ⟨rfl, by unfold Bytes; decide⟩
+  · intro h; cases h
   · intro v h; cases h; exact ⟨rfl, by unfold Bytes; decide⟩
 
 /-- a concrete permutation cipher on 8-byte blocks satisfying `Implements` (for every block length n ≥ 1 and n-byte key:
